@@ -18,9 +18,78 @@ use ndarray::{Array1, Array2};
 use ndarray_npy::NpzWriter;
 use serde_json::json;
 
+/// A first layer of 64 .. 80 neurons behind a one-dimensional input (cheap to distil: at most width + 1
+/// regions), built through Architecture and compared with the reference network.
+fn run_wide(case: u64, rng: &mut Rng, ev: &mut Ev) {
+    let w = 64 + rng.below(17);
+    let mut a1 = Aff { mat: Vec::new(), bias: Vec::new() };
+    for i in 0..w {
+        a1.mat.push(vec![*rng.pick(&[1.0, -1.0, 2.0, -2.0, 0.5])]);
+        a1.bias.push(i as f64 - (w / 2) as f64 + if rng.chance(0.5) { 0.5 } else { 0.0 });
+    }
+    let a2 = Aff { mat: (0..2).map(|_| (0..w).map(|_| rng.int(-2, 2) as f64).collect()).collect(), bias: vec![1.0, -1.0] };
+    let mut arch = Architecture::new(TensorShape::Flat { in_dim: 1 });
+    ev.evaluations += 1;
+    let desc = json!({"wide_first_layer": w});
+    let built = lib(case, "Architecture (wide first layer)", || -> Result<(), String> {
+        arch.linear(a1.to_lib()).map_err(|e| format!("{}", e))?;
+        arch.relu().map_err(|e| format!("{}", e))?;
+        arch.linear(a2.to_lib()).map_err(|e| format!("{}", e))?;
+        Ok(())
+    });
+    match built {
+        Ok(Ok(())) => {}
+        Ok(Err(e)) => {
+            ev.violation(case, "c18:wide:rejected", "", json!({"case": desc, "problem": format!("a dimension-compatible layer sequence was rejected: {}", e)}));
+            return;
+        }
+        Err(p) => {
+            ev.violation(case, "c18:wide:panic", "", json!({"case": desc, "panic": p}));
+            return;
+        }
+    }
+    let TensorShape::Flat { in_dim: cur } = arch.current_shape;
+    if cur != 2 {
+        ev.violation(case, "c18:current_shape", "", json!({"case": desc, "problem": format!("current_shape [{}] expected [2]", cur)}));
+        return;
+    }
+    let tree = match lib(case, "afftree_from_layers(wide architecture)", || afftree_from_layers(1, arch.operators(), None)) {
+        Ok(t) => t,
+        Err(p) => {
+            ev.violation(case, "c18:distill:panic", "", json!({"case": desc, "problem": format!("accepted architecture panics during distillation: {}", p)}));
+            return;
+        }
+    };
+    let mut layers: Vec<L> = vec![L::Linear(a1.clone())];
+    for i in 0..w {
+        layers.push(L::Relu(i));
+    }
+    layers.push(L::Linear(a2.clone()));
+    let ts = snap(&tree);
+    for k in -90..=90 {
+        let x = vec![k as f64 * 0.5];
+        let xq = qv(&x);
+        let exp = refnet::eval(&layers, &xq);
+        match ts.eval(&xq) {
+            TEv::Val(_, v) if v == exp => {}
+            o => {
+                ev.violation(case, "c18:distilled-function", "", json!({"case": desc, "problem": format!("x={:?}: tree {} vs network {:?}", x, o.brief(), exp.iter().map(|q| q.to_f64()).collect::<Vec<_>>())}));
+                return;
+            }
+        }
+    }
+    ev.inc("wide_first_layers_distilled");
+    let mut h = Hasher::new();
+    h.s(&format!("{:?}{:?}", a1.bias, a2.mat));
+    ev.nontrivial(h.fin());
+}
+
 pub fn run_case(ctx: &Ctx, case: u64, ev: &mut Ev) {
     let mut rng = Rng::derive(ctx.seed, "C18", case);
     rng.big = crate::draw_big(ctx, &mut rng);
+    if case % 500 == 3 {
+        return run_wide(case, &mut rng, ev);
+    }
     if rng.chance(0.75) {
         run_arch(case, &mut rng, ev);
     } else {
